@@ -71,6 +71,12 @@ def run(rep, tier):
     for d in modes.parallel(items, _worker):
         rep.merge(d)
     rep.floor_discharged("C01.M", (60 if tier == "quick" else 400) * len(prep))
+    # D2 (structural, all lengths): the lengths that drive the block loops keep their full width
+    from . import widths
+    rep.rule("C01.D2", "length arithmetic in the library keeps the full width of size_t (no zero-extended 32-bit mask)")
+    for js, cname, layout, maxs, units in prep:
+        widths.rule(rep, "C01.D2", modes.load_module(js), cname)
+    widths.control(rep, "C01.D2")
 
 
 def _worker(item):
